@@ -454,6 +454,7 @@ type foundViolation struct {
 	CaseID string          `json:"case_id"`
 	Args   json.RawMessage `json:"args,omitempty"`
 	Count  int             `json:"count"`
+	Alts   []altCase       `json:"-"`
 }
 
 // Coord is the coordinator context of one check run.
@@ -531,7 +532,25 @@ func (c *Coord) record(caseID string, args json.RawMessage, out CaseOut) {
 			c.violOrder = append(c.violOrder, v.Key)
 		}
 		fv.Count++
+		if fv.CaseID != caseID && len(fv.Alts) < 6 {
+			dup := false
+			for _, a := range fv.Alts {
+				if a.CaseID == caseID {
+					dup = true
+				}
+			}
+			if !dup {
+				fv.Alts = append(fv.Alts, altCase{CaseID: caseID, Args: args, Msg: v.Msg})
+			}
+		}
 	}
+}
+
+// altCase is another case that failed with the same key; if the first one does not reproduce, these are tried.
+type altCase struct {
+	CaseID string
+	Args   json.RawMessage
+	Msg    string
 }
 
 func (c *Coord) infra(format string, a ...any) {
@@ -934,10 +953,22 @@ func TestCoordinator(t *testing.T) {
 		// confirm: the same case must fail with the same key every time
 		confirmed := true
 		if os.Getenv("VERIF_NOCONFIRM") == "" && !strings.HasPrefix(key, "harness:") {
-			for i := 0; i < 3; i++ {
-				keys, _ := c.replayOnce(rf)
-				if !contains(keys, key) {
-					confirmed = false
+			cands := append([]altCase{{CaseID: fv.CaseID, Args: fv.Args, Msg: fv.Msg}}, fv.Alts...)
+			confirmed = false
+			for _, cand := range cands {
+				try := replayFile{Property: id, Tier: tier, CaseID: cand.CaseID, Args: cand.Args, Key: key, Msg: cand.Msg}
+				ok := true
+				for i := 0; i < 3; i++ {
+					keys, _ := c.replayOnce(try)
+					if !contains(keys, key) {
+						ok = false
+						break
+					}
+				}
+				if ok {
+					confirmed = true
+					rf = try
+					fv.CaseID, fv.Msg = cand.CaseID, cand.Msg
 					break
 				}
 			}
